@@ -104,7 +104,10 @@ package vbft
 //@   requires forall b uint32 :: has(pool.candidateBlocks, b) ==> pool.candidateBlocks[b] != nil
 //@   requires has(pool.candidateBlocks, blkNum) ==> wfCand(pool.candidateBlocks[blkNum])
 //@   modifies *
-//@   ensures[c41-one-vote-per-endorser-and-proposer] has(pool.candidateBlocks, blkNum) && wfCand(pool.candidateBlocks[blkNum])
+//@   ghost var gcand *CandidateInfo
+//@   set after "candidate := pool.getCandidateInfoLocked(blkNum)" : gcand := candidate
+//@   ensures has(pool.candidateBlocks, blkNum) && pool.candidateBlocks[blkNum] == gcand
+//@   ensures[c41-one-vote-per-endorser-and-proposer] wfCand(gcand)
 //@   ensures forall b uint32 :: has(pool.candidateBlocks, b) ==> pool.candidateBlocks[b] != nil
 //@   ensures pool.candidateBlocks == old(pool.candidateBlocks)
 //@   ensures forall b uint32 :: b != blkNum ==> (has(pool.candidateBlocks, b) <==> old(has(pool.candidateBlocks, b))) && pool.candidateBlocks[b] == old(pool.candidateBlocks[b])
